@@ -496,7 +496,12 @@ def one_transition(ad, tgt, pos, x, xi, ident_x, res, hname, fail, cell):
     res.evaluations += 1
     ptot = sum(d.prob for d, _ in leaves)
     if not close(ptot, 1.0, 1e-12):
-        raise HarnessError("leaf probabilities sum to %r" % ptot)
+        # the same prepared state answered the same decision point with different probabilities in different executions:
+        # the positioning API (set_state) does not restore everything the acceptance depends on (stale cached density)
+        fail("state-not-restored", hname, "executions prepared identically through the sampler's state API disagree on the "
+             "acceptance probability (leaf probabilities sum to %.6g): a cached log-density/gradient that the acceptance uses "
+             "is not part of the saved state" % ptot, focus=focus)
+        return False
     inside = any(0.0 < p < 1.0 for d, _ in leaves for (p, _, _) in d.points)
 
     if ad.kernel == "CWMH":
